@@ -4,7 +4,7 @@ import vlib
 
 TARGETS = ["Base/Num.vo", "Base/Corr.vo", "C07/Model.vo", "C07/ModelNewton.vo", "C07/ModelNewtonMin.vo", "C07/Corr.vo", "C07/Spec.vo",
            "C07/SpecNewton.vo", "C07/SpecNewtonMin.vo", "C07/ProofsNewton.vo", "C07/ProofsNewtonMin.vo", "C07/ExamplesNewton.vo",
-           "C07/ExamplesNewtonMin.vo", "C07/ModelSaga.vo", "C07/SpecSaga.vo", "C07/ProofsSaga.vo", "C07/ExamplesSaga.vo", "C07/ModelBlahut.vo", "C07/ProofsBlahut.vo",
+           "C07/ExamplesNewtonMin.vo", "C07/ModelSaga.vo", "C07/SpecSaga.vo", "C07/ProofsSaga.vo", "C07/ExamplesSaga.vo", "C07/ModelBlahut.vo", "C07/ProofsBlahut.vo", "C07/ModelAdamGeneric.vo", "C07/ProofsAdamGeneric.vo",
            "C07/ProofsQuad.vo", "C07/ProofsBase.vo",
            "C07/ProofsRprop.vo", "C07/ProofsGD.vo", "C07/ProofsLS.vo", "C07/ProofsBfgs.vo", "C07/ProofsDense.vo", "C07/ProofsAdam.vo",
            "C07/Proofs.vo", "C07/Refuted.vo", "C07/Props.vo"]
